@@ -363,6 +363,7 @@ fn replay_on_model(d: &mut mrb_harness::driver::Driver, pr: &Program, v: &Verdic
         let detail = format!("the recorded execution is not an execution of the Lean concurrent machine: record {i} `{l}` -> `{a}` (preceding records: {:?})", ctx);
         if a.contains("moved-beyond-established-availability") { out.push(("C05".into(), detail.clone())); out.push(("C04".into(), detail)); }
         else if a.contains("access-outside-window") { out.push(("C03".into(), detail)); }
+        else if l.starts_with("cd") { out.push(("C07".into(), detail)); }
         else { out.push((String::new(), detail)); }
         break;
     }
